@@ -39,7 +39,13 @@ void getLabels(matrix *m, matrix *centroids, uivector *labels);
 
 /* ------------------------------------------------------------------ seams */
 static size_t g_nproc = 1; static long g_nproc_calls = 0;
-void __wrap_GetNProcessor(size_t *online, size_t *max) { g_nproc_calls++; if (online) *online = g_nproc; if (max) *max = g_nproc; }
+void __real_GetNProcessor(size_t *online, size_t *max);
+static int g_detect = 0;    /* 1: hand out what the library itself detects */
+void __wrap_GetNProcessor(size_t *online, size_t *max) {
+  g_nproc_calls++;
+  if (g_detect) { __real_GetNProcessor(online, max); return; }
+  if (online) *online = g_nproc; if (max) *max = g_nproc;
+}
 
 int __real_pthread_create(pthread_t *, const pthread_attr_t *, void *(*)(void *), void *);
 int __real_pthread_join(pthread_t, void **);
@@ -81,27 +87,48 @@ int __wrap_pthread_join(pthread_t t, void **ret) {
   return 0;
 }
 
+/* iteration tick: KMeansppCenters repeats its sampling sweep until it has found the requested centres; a sweep
+ * whose distance vector was left at zero by a slicing defect never finds one.  Its draws are made by the calling thread. */
+static char g_tick[160] = "nonterm|?";
+int __real_randInt(int low, int high);
+double __real_randDouble(double low, double high);
+int __wrap_randInt(int low, int high) { vx_tick(g_tick); return __real_randInt(low, high); }
+double __wrap_randDouble(double low, double high) { vx_tick(g_tick); return __real_randDouble(low, high); }
+
 /* ------------------------------------------------------------------ ThreadSanitizer report hook */
 static volatile int g_race = 0; static char g_race_desc[48]; static void *volatile g_race_addr;
 #if H_TSAN
 int __tsan_get_report_data(void *report, const char **description, int *count, int *stack_count, int *mop_count, int *loc_count,
                            int *mutex_count, int *thread_count, int *unique_tid_count, void **sleep_trace, unsigned long trace_size);
 int __tsan_get_report_mop(void *report, unsigned long idx, int *tid, void **addr, int *size, int *write, int *atomic, void **trace, unsigned long trace_size);
-/* called by the TSan runtime, in the thread that performed the second access, for every report */
+/* called by the TSan runtime, in the thread that performed the second access, for every report.  Only data races are
+ * handed to the oracle: the other report kinds of this build (heap-use-after-free behind an out-of-range slice, ...) depend
+ * on the allocator history of the worker process and do not replay; the ASan build reports those deterministically. */
+static volatile int g_other = 0;
 __attribute__((no_sanitize("thread"))) void __tsan_on_report(void *rep) {
   const char *d = 0; int c, sc, mc = 0, lc, mu, tc, ut; void *sl[1];
   __tsan_get_report_data(rep, &d, &c, &sc, &mc, &lc, &mu, &tc, &ut, sl, 1);
+  if (!d || d[0] != 'd' || d[1] != 'a' || d[2] != 't' || d[3] != 'a' || d[4] != '-' || d[5] != 'r') { g_other++; return; }
   if (!g_race) {
-    int i = 0; if (d) for (; d[i] && i < (int)sizeof g_race_desc - 1; i++) g_race_desc[i] = d[i] == ' ' ? '-' : d[i];
+    int i = 0; for (; d[i] && i < (int)sizeof g_race_desc - 1; i++) g_race_desc[i] = d[i] == ' ' ? '-' : d[i];
     g_race_desc[i] = 0;
     if (mc > 0) { int tid, sz, wr, at; void *ad = 0, *tr[1]; __tsan_get_report_mop(rep, 0, &tid, &ad, &sz, &wr, &at, tr, 1); g_race_addr = ad; }
   }
   g_race++;
 }
-/* the driver exports TSAN_OPTIONS=halt_on_error=0:...; options it does not mention come from here.
- * equal-stack / equal-address suppression is per PROCESS and would hide the race in every execution
- * after the first one of a worker; exitcode=0 keeps the worker's exit status meaningful for the engine */
-const char *__tsan_default_options(void) { return "suppress_equal_stacks=0:suppress_equal_addresses=0:exitcode=0:report_thread_leaks=0:history_size=4"; }
+/* The driver exports TSAN_OPTIONS=halt_on_error=1:exitcode=66 (a report kills the worker and the engine files it as
+ * crash|tsan:<kind>|<innermost library frame>, without the input class).  This harness wants the class in the key and the
+ * other oracles evaluated on the same execution, so the TSan build re-executes itself once with options appended (later
+ * values win): keep running after a report (the hook above hands it to the oracle), do not fold the exit status, and do not
+ * suppress a race whose stacks/addresses equal an earlier one (that suppression is per PROCESS and would hide the race in
+ * every execution of a worker after the first).  If the exec fails the engine's crash attribution still applies. */
+static void tsan_reexec(char **argv) {
+  if (getenv("H_TSAN_REEXEC")) return;
+  const char *o = getenv("TSAN_OPTIONS"); char buf[1200];
+  snprintf(buf, sizeof buf, "%s%shalt_on_error=0:exitcode=0:suppress_equal_stacks=0:suppress_equal_addresses=0:report_thread_leaks=0:history_size=4", o ? o : "", o && *o ? ":" : "");
+  setenv("TSAN_OPTIONS", buf, 1); setenv("H_TSAN_REEXEC", "1", 1);
+  execv("/proc/self/exe", argv);
+}
 #endif
 static void race_reset(void) { g_race = 0; g_race_addr = 0; g_race_desc[0] = 0; }
 static void race_check(const char *fn, const char *cl) {
@@ -348,6 +375,7 @@ static void run_algo(int which, int n, int th, int c, int fam) {
   static const char *NAMES[5] = {"KMeans(MaxDis-init)", "MDC", "KMeansppCenters", "MaxDis", "MaxDis_Fast"};
   const char *fn = NAMES[which], *cl = cls(n, th); char key[160];
   matrix *m = gen(fam, n, c); uint64_t h = 500 + (uint64_t)which;
+  snprintf(g_tick, sizeof g_tick, "nonterm|%s|%s", fn, cl); vx_tick_reset();   /* legitimate runs draw < 500 numbers here */
   if (which == 0) {
     int k = n < 3 ? n : 3; uivector *l1, *lt; matrix *c1, *ct; initUIVector(&l1); initUIVector(&lt); initMatrix(&c1); initMatrix(&ct);
     srand_(1); KMeans(m, (size_t)k, 3, l1, c1, 1);
@@ -363,7 +391,7 @@ static void run_algo(int which, int n, int th, int c, int fam) {
     for (int pass = 0; pass < 2; pass++) {
       uivector *s = pass ? st : s1; size_t t = pass ? (size_t)th : 1;
       if (pass) race_reset();
-      srand_(7);
+      srand_(7); vx_tick_reset();
       if (which == 1) MDC(m, (size_t)want, metric, s, t);
       else if (which == 2) KMeansppCenters(m, (size_t)want, s, (int)t);
       else if (which == 3) MaxDis(m, (size_t)want, metric, s, t);
@@ -429,14 +457,23 @@ static void run_big(void) {
   else run_labels(n, th, c, fam, NULL);
 }
 
-enum { OP_MV, OP_VM, OP_DIST0, OP_DIST1, OP_DIST2, OP_DIST3, OP_COND0, OP_COND1, OP_COND2, OP_COND3, OP_LABELS, OP_KMEANS, OP_MDC, OP_KMPP, OP_MAXDIS, OP_MAXDISF, OP_INDEX, OP_ORDER, OP_BIG, NOPS };
+/* the detected processor count (no override): must be a usable thread count */
+static void run_detect(void) {
+  int which = vx_choose("kernel", 2), n = vx_choose("rows", 41), c = pick_cols();
+  size_t on = 0, mx = 0; __real_GetNProcessor(&on, &mx); vx_transition(1);
+  vx_check(on >= 1 && on <= 4096 && mx >= 1 && mx <= 4096, "value|GetNProcessor", "detected %zu online / %zu configured processors", on, mx);
+  if (on >= 1 && on <= 4096) { g_detect = 1; run_mtmv(which, n, (int)on, c, 0, NULL); g_detect = 0; }
+}
+
+enum { OP_MV, OP_VM, OP_DIST0, OP_DIST1, OP_DIST2, OP_DIST3, OP_COND0, OP_COND1, OP_COND2, OP_COND3, OP_LABELS, OP_KMEANS, OP_MDC, OP_KMPP, OP_MAXDIS, OP_MAXDISF, OP_INDEX, OP_ORDER, OP_BIG, OP_DETECT, NOPS };
 
 static void body(void) {
   int op = vx_choose("op", NOPS), n, th;
-  g_serial = 0; g_nproc = 1;
+  g_serial = 0; g_nproc = 1; g_detect = 0;
   if (op == OP_INDEX) { run_index(); return; }
   if (op == OP_ORDER) { run_order(); return; }
   if (op == OP_BIG) { run_big(); return; }
+  if (op == OP_DETECT) { run_detect(); return; }
   pick(op >= OP_KMEANS ? 1 : 0, &n, &th);
   int c = pick_cols(), fam = pick_fam();
   if (op <= OP_VM) run_mtmv(op, n, th, c, fam, NULL);
@@ -447,16 +484,20 @@ static void body(void) {
 }
 
 int main(int argc, char **argv) {
+#if H_TSAN
+  tsan_reexec(argv);
+#endif
   vg_seed(getenv("VERIF_SEED") ? atol(getenv("VERIF_SEED")) : 0);
   vx_describe("build", H_TSAN ? "clang ThreadSanitizer, real threads free-running; TSan reports reach the oracle through __tsan_on_report" : "gcc ASan+UBSan, real threads free-running");
   vx_describe("alphabet", "kernel in {MT_MatrixDVectorDotProduct, MT_DVectorMatrixDotProduct (threads via --wrap=GetNProcessor), CalculateDistance x 4 metrics x {self, other}, "
               "{Euclidean,SquaredEuclidean,Manhattan,Cosine}DistanceCondensed, getLabels_, KMeans, MDC, KMeansppCenters, MaxDis, MaxDis_Fast} x %s x cols {1,3}; "
-              "square_to_condensed_index: all pairs for n = 2..60; worker run order: all permutations for (rows,workers) in {(5,2),(3,4)} x 6 kernels; values on {41,50,57,60} x {2,6,10} with 7 thread counts",
+              "square_to_condensed_index: all pairs for n = 2..60; worker run order: all permutations for (rows,workers) in {(5,2),(3,4)} x 6 kernels; values on {41,50,57,60} x {2,6,10} with 7 thread counts; the MT_ products with the processor count the library detects itself (rows 0..40)",
               H_TSAN && !vx_thorough() ? "(rows,threads) in {0,1,2,3,5,8,13,24,40} x {1,2,3,4,7,8,24}" : "ALL (rows,threads) in {0..40} x {1..24} (selection algorithms: rows 1..40)");
   vx_describe("oracle", "long-double definitions with derived forward error bounds (64 eps (c+4) |value|); coverage through sentinel / kernel-zeroed outputs; "
               "MT == sequential variant to rounding; two runs bit-identical; distance axioms; condensed == square at the documented index; index map bijective; "
               "thread-count independence of the selection algorithms and k-means; TSan report => race violation");
   vx_set_shard_depth(3);
+  vx_tick_ceiling = 5000;
   vx_expect_outcomes(H_TSAN ? 200 : 1000);   /* outcomes do not depend on the thread count: ~ kernels x rows x cols */
   return vx_main(argc, argv, "C13", body);
 }
